@@ -10,8 +10,31 @@ from typing import Any, TypeVar
 
 from hypergraph.nodes._rename import RenameEntry, RenameError, get_next_batch_id
 
+
+
+class _EmitSentinel:
+    """Marker value auto-produced for emit outputs when a node runs.
+
+    It is recognised by identity, so it must stay the same object when cached
+    outputs are pickled (DiskCache) or copied: it reduces to a lookup of the
+    module-level singleton.
+    """
+
+    __slots__ = ()
+
+    def __reduce__(self) -> tuple:
+        return (_get_emit_sentinel, ())
+
+    def __repr__(self) -> str:
+        return "<emit signal>"
+
+
+def _get_emit_sentinel() -> "_EmitSentinel":
+    return _EMIT_SENTINEL
+
+
 # Sentinel value auto-produced for emit outputs when a node runs.
-_EMIT_SENTINEL = object()
+_EMIT_SENTINEL = _EmitSentinel()
 
 # TypeVar for self-referential return types (Python 3.10 compatible)
 _T = TypeVar("_T", bound="HyperNode")
